@@ -531,8 +531,21 @@ def run_one(c):
     return fails, nontrivial
 
 
+CUR = mp.Array("i", 64, lock=False)      # per worker: index of the case being run (-1 idle)
+for _i in range(64):
+    CUR[_i] = -1
+
+
 def run_chunk(chunk):
-    return [run_one(c) for c in chunk]
+    """chunk = [(global index, case)]"""
+    ident = mp.current_process()._identity
+    slot = (ident[0] if ident else 0) % 64
+    out = []
+    for i, c in chunk:
+        CUR[slot] = i
+        out.append(run_one(c))
+        CUR[slot] = -1
+    return out
 
 
 # ------------------------------------------------------------------ scope
@@ -764,30 +777,40 @@ def main():
         cases = make_cases(args.tier, args.seed)
 
     csize = 25
-    chunks = [cases[i:i + csize] for i in range(0, len(cases), csize)]
+    indexed = list(enumerate(cases))
+    chunks = [indexed[i:i + csize] for i in range(0, len(indexed), csize)]
     nproc = 1 if args.replay else min(8, os.cpu_count() or 1)
-    budget = 240 if args.tier == "quick" else 1500
-    deadline = time.time() + budget
+    stall = 60.0                      # a case takes milliseconds; no result for 60 s = hang
     pool = mp.get_context("fork").Pool(nproc)
     n_undefined = 0
     try:
-        pending = [(ch, pool.apply_async(run_chunk, (ch,))) for ch in chunks]
-        for ch, ar in pending:
-            try:
-                res = ar.get(timeout=max(10.0, deadline - time.time()))
-            except mp.TimeoutError:
-                rep.fail("harness/hang", {"cases": ch}, "a case of this chunk did not return "
-                         f"within the {budget}s budget (rejection loop without admissible choice?)")
+        pending = {k: pool.apply_async(run_chunk, (ch,)) for k, ch in enumerate(chunks)}
+        last = time.time()
+        while pending:
+            done = [k for k, ar in pending.items() if ar.ready()]
+            if not done:
+                if time.time() - last > stall:
+                    hung = sorted({CUR[i] for i in range(64) if CUR[i] >= 0})
+                    for i in hung:
+                        rep.fail("harness/hang", cases[i], "case did not return within "
+                                 f"{stall:.0f}s (rejection loop without admissible choice?)")
+                    rep.skip(f"{sum(len(chunks[k]) for k in pending)} cases in unfinished chunks "
+                             "were not evaluated because workers hung")
+                    break
+                time.sleep(0.05)
                 continue
-            for c, (fails, nontrivial) in zip(ch, res):
-                if nontrivial is None:
-                    n_undefined += 1
-                    continue
-                rep.case(case_key(c), nontrivial=bool(nontrivial),
-                         sample=c if c["kind"] in ("geomodel", "cross_rewire", "BA") and nontrivial
-                         and len(c.get("A", [])) <= 5 else None)
-                for check, detail in fails:
-                    rep.fail(check, c, detail)
+            last = time.time()
+            for k in done:
+                res = pending.pop(k).get()
+                for (i, c), (fails, nontrivial) in zip(chunks[k], res):
+                    if nontrivial is None:
+                        n_undefined += 1
+                        continue
+                    rep.case(case_key(c), nontrivial=bool(nontrivial),
+                             sample=c if c["kind"] in ("geomodel", "cross_rewire", "BA") and nontrivial
+                             and len(c.get("A", [])) <= 5 else None)
+                    for check, detail in fails:
+                        rep.fail(check, c, detail)
     finally:
         pool.terminate()
     if n_undefined:
